@@ -101,7 +101,10 @@ Definition remove_req (l : list (nat * nat * nat)) (id : nat) : list (nat * nat 
 
 Definition assign (s : state) (id : nat) (base : Z) (attempts : nat) : outcome * state :=
   match choose bal s hh base with
-  | None => (Unavailable503, s)
+  | None =>         (* no host available: round-robin stores the -1 it found ("Save new index for next round") *)
+      (Unavailable503,
+       {| hosts := hosts s; last_used := match bal, hosts s with RoundRobin, _ :: _ :: _ => -1 | _, _ => last_used s end;
+          now := now s; inflight := inflight s |})
   | Some i =>
       (Dispatched i,
        {| hosts := upd (hosts s) i inc;
